@@ -67,6 +67,23 @@ SHIFTS = [0, 1, 2, 31, 32, 33, 63, 64, 65, 127, 128, 129, 200]
 def gen_arg(rng, kind):
     if kind == "I":
         return vf.structured_int(rng, 4)
+    if kind == "Is":         # big integer of at most two limbs (bases of powers)
+        return vf.structured_int(rng, 2)
+    if kind.startswith("pe_"):     # powmod exponent carried by a word type: small, boundary, or the whole range
+        t = kind[3:]
+        r = rng.below(4)
+        if r == 0:
+            return gen_word(rng, t)
+        v = rng.choice([0, 1, 2, 3, 5, 16, 17, 64, 65]) if r == 1 else rng.below(300)
+        return -v if RANGE[t][0] < 0 and rng.chance(1, 3) else v
+    if kind == "idx":
+        return rng.below(6)
+    if kind == "base2":
+        return rng.choice([2, 4, 8, 16, 32])
+    if kind.startswith("rt_"):
+        return rng.choice([1, 2, 3, 4, 5, 7, 8, 11, 12])
+    if kind.startswith("fa_"):
+        return rng.below(45)
     if kind == "N":          # non-negative big integer
         return abs(vf.structured_int(rng, 4))
     if kind == "P":          # positive
@@ -95,8 +112,10 @@ def unser(kind, s):
 
 
 def nontrivial(spec, a):
-    for k, x in zip(spec["args"], a):
-        if k in ("I", "N", "P") and abs(x) > 1:
+    for k, x in zip(kinds(spec, a), a):
+        if k in ("I", "N", "P", "Is") and abs(x) > 1:
+            return True
+        if k in ("d", "f", "u64", "i64") and abs(x) > 2**32:
             return True
     return False
 
@@ -104,13 +123,18 @@ def nontrivial(spec, a):
 def klass_of(spec, a):
     if "klass" in spec:
         return spec["klass"](*a)
-    return "signs=" + "".join("-" if x < 0 else "0" if x == 0 else "+" for x in a)
+    return "signs=" + "".join("-" if x < 0 else "0" if x == 0 else "+" for x in a[:6])
+
+
+def kinds(spec, a):
+    """argument kinds of a concrete case (a generated limb list is a list of u64 words)"""
+    return ["u64"] * len(a) if "gen" in spec else spec["args"]
 
 
 def gen_cases(rng, v, spec, n):
     out = []
     for i in range(n):
-        a = [gen_arg(rng, k) for k in spec["args"]]
+        a = spec["gen"](rng) if "gen" in spec else [gen_arg(rng, k) for k in spec["args"]]
         if "fix" in spec:
             a = spec["fix"](rng, a)
             if a is None:
@@ -203,7 +227,4 @@ for t, suf in (("I", ["dom"]), ("u64", [])):
     forms("maxpyin_" + t, suf, ["I", "I", t], lambda r, a, x: r - a * x)
     forms("axmyin_" + t, suf, ["I", "I", t], lambda r, a, x: a * x - r)
 
-try:
-    import c01_table2  # noqa: F401  (compare, shifts, bit logic, casts, pow, gcd, roots ...)
-except ImportError:
-    pass
+import c01_table2  # noqa: F401,E402  (comparisons, shifts, bit logic, conversions, powers, gcd family, roots, misc)
